@@ -25,11 +25,46 @@ type ignore struct {
 	ignoreNextLine ignoredRules
 	ignoreThisLine ignoredRules
 	ignoreRange    ignoredRules
+
+	// next-line and this-line rules of the enclosing statements.
+	// Statements are nested, so setup saves them and teardown restores them,
+	// otherwise a comment on an inner statement would cancel the one on the outer statement.
+	scopes []ignoreScope
+}
+
+type ignoreScope struct {
+	nextLine ignoredRules
+	thisLine ignoredRules
 }
 
 type ignoredRules struct {
 	all   bool
 	rules map[Rule]bool
+}
+
+func (i ignoredRules) clone() ignoredRules {
+	c := ignoredRules{all: i.all, rules: make(map[Rule]bool, len(i.rules))}
+	for r, v := range i.rules {
+		c.rules[r] = v
+	}
+	return c
+}
+
+func (i *ignore) enter() {
+	i.scopes = append(i.scopes, ignoreScope{
+		nextLine: i.ignoreNextLine.clone(),
+		thisLine: i.ignoreThisLine.clone(),
+	})
+}
+
+func (i *ignore) leave() {
+	last := len(i.scopes) - 1
+	if last < 0 {
+		return
+	}
+	i.ignoreNextLine = i.scopes[last].nextLine
+	i.ignoreThisLine = i.scopes[last].thisLine
+	i.scopes = i.scopes[:last]
 }
 
 func ignoreRules(ignoredRules *ignoredRules, rules []Rule) {
@@ -41,7 +76,7 @@ func ignoreRules(ignoredRules *ignoredRules, rules []Rule) {
 		return
 	}
 
-	ignoredRules.all = false
+	// Note: naming rules must not narrow the set when all rules are already ignored
 	if ignoredRules.rules == nil {
 		ignoredRules.rules = make(map[Rule]bool)
 	}
@@ -95,6 +130,8 @@ func parseIgnoreComment(comment string) (string, []Rule) {
 // Then leading comments accept falco-ignore-next-line, falco-ignore-start, falco-ignore-end
 // trailing comments accept falco-ignore
 func (i *ignore) SetupStatement(meta *ast.Meta) {
+	i.enter()
+
 	// Find ignore signature in leading comments
 	for _, c := range meta.Leading {
 		switch ignoreType, rules := parseIgnoreComment(c.String()); ignoreType {
@@ -117,20 +154,9 @@ func (i *ignore) SetupStatement(meta *ast.Meta) {
 }
 
 // Clean up common statements, declarations
-func (i *ignore) TeardownStatement(meta *ast.Meta) {
-	for _, c := range meta.Leading {
-		ignoreType, rules := parseIgnoreComment(c.String())
-		if ignoreType == falcoIgnoreNextLine {
-			unignoreRules(&i.ignoreNextLine, rules)
-		}
-	}
-
-	for _, c := range meta.Trailing {
-		ignoreType, rules := parseIgnoreComment(c.String())
-		if ignoreType == falcoIgnoreThisLine {
-			unignoreRules(&i.ignoreThisLine, rules)
-		}
-	}
+func (i *ignore) TeardownStatement(_ *ast.Meta) {
+	// falco-ignore-next-line and falco-ignore end with the statement
+	i.leave()
 }
 
 // Block statement is special, the comment placing is following:
@@ -146,6 +172,8 @@ func (i *ignore) TeardownStatement(meta *ast.Meta) {
 // So we need to divide parsing leading and trailing comment by setup and teardown.
 // The infix comments are placed after the last statement so they take effect on teardown.
 func (i *ignore) SetupBlockStatement(meta *ast.Meta) {
+	i.enter()
+
 	for _, c := range meta.Leading {
 		switch ignoreType, rules := parseIgnoreComment(c.String()); ignoreType {
 		case falcoIgnoreNextLine:
@@ -158,12 +186,7 @@ func (i *ignore) SetupBlockStatement(meta *ast.Meta) {
 	}
 }
 func (i *ignore) TeardownBlockStatement(meta *ast.Meta) {
-	for _, c := range meta.Leading {
-		ignoreType, rules := parseIgnoreComment(c.String())
-		if ignoreType == falcoIgnoreNextLine {
-			unignoreRules(&i.ignoreNextLine, rules)
-		}
-	}
+	i.leave()
 
 	// A range may start or end at the bottom of the block
 	for _, c := range meta.Infix {
@@ -176,10 +199,8 @@ func (i *ignore) TeardownBlockStatement(meta *ast.Meta) {
 	}
 
 	for _, c := range meta.Trailing {
-		switch ignoreType, rules := parseIgnoreComment(c.String()); ignoreType {
-		case falcoIgnoreThisLine:
-			unignoreRules(&i.ignoreThisLine, rules)
-		case falcoIgnoreEnd:
+		ignoreType, rules := parseIgnoreComment(c.String())
+		if ignoreType == falcoIgnoreEnd {
 			unignoreRules(&i.ignoreRange, rules)
 		}
 	}
